@@ -207,6 +207,16 @@ theorem rr_fixed_len (r : RR) :
   simp [Dns.RR.writeCommon, Gen.Env.rrFixedLen]
   cases r.rdata <;> simp
 
+/-- the steps of `ResourceRecord::write_compressed_to` are those of the model's
+`RR.writeCompressedTo` (`Model/Writer.lean`), in its order: owner name through the suffix table, the
+fixed fields, the position of RDLENGTH remembered, a two-byte placeholder, the RDATA through the
+table, the end remembered, seek back to the placeholder, RDLENGTH = end − placeholder − 2, seek to
+the remembered end (not to the end of the stream: the writer may hold more than has been written) -/
+theorem rr_write_compressed_steps :
+    Gen.Env.rrCompressedSteps.all (· == ["name", "common", "mark:len_position", "placeholder", "rdata",
+      "mark:end", "seek:start(len_position)", "patch:end-len_position-2", "seek:start(end)"]) := by
+  decide
+
 /-! ### 5. `RData::parse` (the RDLENGTH framing, `rdata_enum!`) -/
 
 def RData.parseWith (guard : Nat) (ty ln : Nat × Nat) (guard2 optEnd adv : Nat)
